@@ -73,7 +73,7 @@ def node_state(model):
     return st
 
 
-def premise_matrix(W, need_symmetric=True, need_tiefree=False):
+def premise_matrix(W, need_symmetric=True, need_tiefree=False, check_diag=True):
     """-> None if ok else reason string"""
     import math
 
@@ -81,6 +81,10 @@ def premise_matrix(W, need_symmetric=True, need_tiefree=False):
     for i in range(n):
         for j in range(n):
             v = W[i][j]
+            if i == j:  # self-distances are never used as arc weights by fit; rounding may make them -1e-16 (cosine)
+                if check_diag and not math.isfinite(v):
+                    return "not_finite_nonneg"
+                continue
             if not math.isfinite(v) or v < 0 or v >= 1e300:
                 return "not_finite_nonneg"
             if need_symmetric and W[j][i] != v:
